@@ -1615,6 +1615,43 @@ class _NP(object):
             return v
         return (Arr((n,), hf, 'int'), Arr(b.shape, b.snap(), b.dtype))
 
+    # --- .npz files: a virtual file system (assumed contract of np.savez / np.load: the arrays come back unchanged,
+    #     python numbers and lists come back as arrays; None / objects would be PICKLED and np.load then refuses them)
+    def _vfs(self):
+        return CTX().__dict__.setdefault('vfs', {})
+
+    def _savez(self, filename, kw):
+        c = CTX()
+        if not isinstance(filename, str):
+            raise Unsupported('savez to a non-string file name')
+        if not filename.endswith('.npz'):
+            filename += '.npz'
+        stored = {}
+        for k, v in kw.items():
+            if isinstance(v, ArrBase):
+                stored[k] = v.copy()
+            elif isinstance(v, (list, tuple)) and all(isinstance(_generic(e), (SV, int, Fraction, float)) and not isinstance(e, bool) for e in v):
+                stored[k] = to_arr([sym.to_real(e) for e in v])
+            elif isinstance(_generic(v), (SV, int, Fraction, float, bool)):
+                stored[k] = Arr((), (lambda _v=v: _v), _dtype_of(v))
+            else:
+                stored[k] = _Pickled(v)
+        self._vfs()[filename] = stored
+        if 'assumed-contract:np.savez/np.load round trip arrays exactly' not in c.trace:
+            c.trace.append('assumed-contract:np.savez/np.load round trip arrays exactly')
+
+    def savez(self, filename, *args, **kw):
+        self._savez(filename, kw)
+
+    def savez_compressed(self, filename, *args, **kw):
+        self._savez(filename, kw)
+
+    def load(self, filename, allow_pickle=False):
+        fs = self._vfs()
+        if filename not in fs:
+            raise PyRaise('FileNotFoundError', filename)
+        return _NpzFile(fs[filename], allow_pickle)
+
     def errstate(self, **kw):
         return _NullCtx()
 
@@ -1629,6 +1666,43 @@ class _NP(object):
         if all(dim_conc(d) for d in a.shape):
             return _fold(sym.add, [ite(sym.cmp('!=', v, 0) if not (isinstance(v, SV) and v.is_bool) and not isinstance(v, bool) else v, 1, 0) for v in _concrete_items(a)]) if a.size else 0
         raise Unsupported('count_nonzero symbolic')
+
+
+class _Pickled(object):
+    def __init__(self, v):
+        self.v = v
+
+
+class _NpzFile(dict):
+    """np.load result: mapping name -> array; object entries raise ValueError unless allow_pickle"""
+    def __init__(self, stored, allow_pickle):
+        dict.__init__(self)
+        self._stored, self._allow = stored, allow_pickle
+        for k in stored:
+            dict.__setitem__(self, k, None)
+
+    def __getitem__(self, k):
+        if k not in self._stored:
+            raise KeyError(k)
+        v = self._stored[k]
+        if isinstance(v, _Pickled):
+            if not self._allow:
+                raise PyRaise('ValueError', 'Object arrays cannot be loaded when allow_pickle=False')
+            return v.v
+        return v
+
+    def items(self):
+        return [(k, self[k]) for k in self._stored]
+
+    def values(self):
+        return [self[k] for k in self._stored]
+
+    def get(self, k, d=None):
+        return self[k] if k in self._stored else d
+
+    @property
+    def files(self):
+        return list(self._stored)
 
 
 class _Finfo(object):
